@@ -759,7 +759,8 @@ func evalCase(s *space, idx int, startBit int, careful bool, thorough bool, dead
 			}
 		}
 		trySeg := func(cuts ...int) { trySegVia(epTyped, cuts...) }
-		// the other entry points: contiguous, every 1-cut, and (base shapes; thorough: all) every pair of element offsets
+		fullEntries := len(c.Devs) == 0 || (thorough && len(c.Devs) <= 1)
+		// the other entry points: contiguous, every 1-cut, and (base shapes; thorough: <=1-deviation shapes) every pair of element offsets
 		for _, ep := range otherEntries {
 			if ep >= epEngine && !rig.usable {
 				continue
@@ -787,13 +788,13 @@ func evalCase(s *space, idx int, startBit int, careful bool, thorough bool, dead
 				continue // differs from the full LpPacket only in the header fields: contiguous decode only
 			}
 			cutsE := cuts1
-			if ep >= epEngine && !thorough && len(c.Devs) > 0 && root != nil {
-				cutsE = root.HeaderCuts(n, 1) // quick tier, deviated shapes, engine: cuts within 1 byte of an element offset
+			if ep >= epEngine && !fullEntries && root != nil {
+				cutsE = root.HeaderCuts(n, 1) // engine, other shapes: cuts within 1 byte of an element offset
 			}
 			for _, p := range cutsE {
 				trySegVia(ep, p)
 			}
-			if root != nil && (thorough || len(c.Devs) == 0) {
+			if root != nil && fullEntries {
 				hp := root.HeaderCuts(n, 0)
 				if len(hp) <= 60 {
 					for i := 0; i < len(hp); i++ {
@@ -945,8 +946,8 @@ func evalCase(s *space, idx int, startBit int, careful bool, thorough bool, dead
 	} else if lay.sigInfo != nil {
 		tamperCuts = append(tamperCuts, lay.sigInfo.Start)
 	}
-	// full plan (every entry point x every reader form) for the base shapes and in the thorough tier
-	fullPlan := thorough || len(c.Devs) == 0
+	// full plan (every entry point x every reader form) for the base shapes (thorough tier: <=1-deviation shapes)
+	fullPlan := len(c.Devs) == 0 || (thorough && len(c.Devs) <= 1)
 	plan := tamperPlan(fullPlan, len(tamperCuts))
 	if fullPlan {
 		cc.stat["packets_tampered_through_every_entry_point_and_reader_form"]++
@@ -1855,8 +1856,8 @@ func main() {
 			"context_reuse":        "one spec.PacketParsingContext per worker parses every signed packet (Init; Parse): its SigCovered must equal the signer's input, and the wire it returned for the previous packet must be unchanged and still verify after Init + Parse of the current packet",
 			"delayed_verification": "each worker keeps ONE signer object per mode; the un-joined Wire of the previous packet a signer object signed is joined, decoded, compared with what the signer was handed and validated only after the same object signed the next packet",
 			"segmentation":         "C12.cover: every 1-cut (packets >1200 B: cuts within 2 bytes of element offsets), every 2-cut for packets <=100 B (thorough, <=1 deviation: <=400 B) else all pairs of element offsets, every 3-cut for packets <=56 B (thorough, <=1 deviation: <=112 B) else outer-header-end + every pair of element offsets (quick tier, deviated shapes: pairs at most 3 offsets apart)",
-			"entry_points":         "every decode goes through " + strings.Join(entryNames[:], "; ") + ". The engine is a real std/engine/basic.Engine on a harness face driven synchronously (root Interest handler; for Data a pending CanBePrefix Interest for the shortest name prefix not ending in an implicit-digest component, re-expressed when consumed); engine entry points are not applicable to Data without such a prefix and to names with a component over " + strconv.Itoa(engineMaxComp) + " bytes (counter cases_engine_entry_points_not_applicable). C12.cover/accept: every entry point from contiguous bytes and from every 1-cut (engine entry points on deviated shapes in the quick tier: cuts within 1 byte of an element offset; base shapes, thorough: all shapes: also every pair of element offsets); sweep / length-class builds: every entry point from contiguous bytes",
-			"tamper_decode_paths":  "reader forms: contiguous bytes, 2 segments cut (a) in the middle and (b) right before the ApplicationParameters (Interest) / SignatureInfo (Data) element. Every flipped packet of a base shape (thorough: of every shape) goes through every entry point x every reader form (LpPacket with Fragment only: contiguous); flipped packets of deviated shapes in the quick tier go through Spec.ReadInterest/ReadData x every reader form and spec.ReadPacket from contiguous bytes; accepted by any probe counts as accepted",
+			"entry_points":         "every decode goes through " + strings.Join(entryNames[:], "; ") + ". The engine is a real std/engine/basic.Engine on a harness face driven synchronously (root Interest handler; for Data a pending CanBePrefix Interest for the shortest name prefix not ending in an implicit-digest component, re-expressed when consumed); engine entry points are not applicable to Data without such a prefix and to names with a component over " + strconv.Itoa(engineMaxComp) + " bytes (counter cases_engine_entry_points_not_applicable). C12.cover/accept: every entry point from contiguous bytes and from every 1-cut (engine entry points on shapes other than the following: cuts within 1 byte of an element offset; base shapes, thorough: <=1-deviation shapes: also every pair of element offsets); sweep / length-class builds: every entry point from contiguous bytes",
+			"tamper_decode_paths":  "reader forms: contiguous bytes, 2 segments cut (a) in the middle and (b) right before the ApplicationParameters (Interest) / SignatureInfo (Data) element. Every flipped packet of a base shape (thorough: of every <=1-deviation shape) goes through every entry point x every reader form (LpPacket with Fragment only: contiguous); flipped packets of the other shapes go through Spec.ReadInterest/ReadData x every reader form and spec.ReadPacket from contiguous bytes; accepted by any probe counts as accepted",
 			"tamper_resize":        "for every packet with a validator: the signature value with one zero byte / its first byte / itself appended, and with its last / first byte removed, all enclosing TLV lengths adjusted (the title's 'verify iff untampered' beyond single-bit flips); must be rejected by the decoder or the validator, through every entry point",
 			"digest_mismatch":      "every Interest with parameters that gets tampered: digest component replaced by 32 zero bytes / SHA-256 of the parameters value only / of the ApplicationParameters element only / of the empty string / the correct digest rotated / truncated to 31 and 16 bytes / extended to 33 bytes, and the parameters value extended by a zero byte / shortened at either end (all enclosing lengths adjusted): every entry point, from contiguous bytes and from 2 segments, must reject on decode",
 			"tamper":               "every bit of the signed portion, SignatureValue element, ApplicationParameters element and digest component when these total <=700 bytes; above: every bit of the bytes within 4 of an element boundary and one bit of every 251st (thorough, sha256/hmac/unsigned: 7th) other byte; P-521 (verification ~1 ms): quick tier base shapes only with bits 0 and 7 of every byte, thorough tier <=1-deviation shapes with every bit",
